@@ -33,6 +33,9 @@ enum Op {
     DropH(usize),     // handle slot
     DropHThread(usize),
     IntoFunc(usize),  // handle slot: `into_func()`, the slot then holds the closure
+    MakeList(usize),  // package slot: call its `mk_list()`, keep the List[String] the script made (one list slot)
+    UseList,          // `contains` on that list and clone + drop of a clone (needs the element clone / drop / eq code)
+    DropList,
     DropP(usize),
     DropRt,
 }
@@ -56,6 +59,8 @@ struct Model {
     handles: Vec<Option<usize>>,    // slot -> module
     /// the slot holds the closure made by `into_func` (callable, droppable, not clonable)
     closure: Vec<bool>,
+    /// the module whose script made the list in the list slot
+    list: Option<usize>,
     dead_modules: u64,
 }
 
@@ -84,6 +89,19 @@ impl Model {
                     v.push(Op::Get(i));
                 }
                 v.push(Op::DropP(i));
+            }
+        }
+        match self.list {
+            None => {
+                for (i, p) in self.pkgs.iter().enumerate() {
+                    if p.is_some() {
+                        v.push(Op::MakeList(i));
+                    }
+                }
+            }
+            Some(_) => {
+                v.push(Op::UseList);
+                v.push(Op::DropList);
             }
         }
         for (i, h) in self.handles.iter().enumerate() {
@@ -130,7 +148,9 @@ impl Model {
                 self.handles[slot] = Some(m);
                 self.modules[m].handles += 1;
             }
-            Op::Call(_) => {}
+            Op::Call(_) | Op::UseList => {}
+            Op::MakeList(p) => self.list = Some(self.pkgs[p].unwrap()),
+            Op::DropList => self.list = None,
             Op::IntoFunc(h) => self.closure[h] = true,
             Op::DropH(h) | Op::DropHThread(h) => {
                 self.closure[h] = false;
@@ -225,6 +245,11 @@ impl Model {
             }
             s += ",";
         }
+        s += "|";
+        match self.list {
+            Some(m) => describe(m, &mut s, &mut mod_names, &mut gen_names),
+            None => s += "_",
+        }
         s
     }
 }
@@ -270,6 +295,7 @@ const KZ: Z = mkz();
 const KT: Tr = mk(901);
 const KI: u64 = 11;
 fn f(x: u64) -> u64 { x + KI + cap() + cap2() - 801 + RC.payload() + KT.payload() }
+fn mk_list() -> List[String] { [\"a\", \"b\"] }
 ";
 const V2: &str = "\
 const KT: Tr = mk(902);
@@ -277,6 +303,7 @@ const KZ: Z = mkz();
 const KI: u64 = 22;
 fn helper(x: u64) -> u64 { x * 2 }
 fn f(x: u64) -> u64 { helper(x) + KI + cap() + cap2() - 801 + RC.payload() + KT.payload() }
+fn mk_list() -> List[String] { let l = [\"a\"]; l.push(\"b\"); l }
 ";
 
 type H = TypedFunc<NoCtx, fn(u64) -> u64>;
@@ -300,6 +327,7 @@ struct Real {
     rt: Option<Runtime<NoCtx>>,
     pkgs: Vec<Option<Package<NoCtx>>>,
     handles: Vec<Option<Slot>>,
+    list: Option<roto::List<roto::RotoString>>,
 }
 
 thread_local! {
@@ -360,7 +388,7 @@ fn replay(hist: &[Op], last: Op) -> Result<String, (String, Value)> {
     BAD_CALLS.with(|b| b.borrow_mut().clear());
     LIVE_MODULES.with(|m| m.borrow_mut().clear());
     roto::verif::set_sink(Some(sink));
-    let mut real = Real { rt: None, pkgs: (0..MAX_PKGS).map(|_| None).collect(), handles: (0..MAX_HANDLES).map(|_| None).collect() };
+    let mut real = Real { rt: None, pkgs: (0..MAX_PKGS).map(|_| None).collect(), handles: (0..MAX_HANDLES).map(|_| None).collect(), list: None };
     let mut model = Model::new();
     let mut obs = String::new();
     let all: Vec<Op> = hist.iter().copied().chain(std::iter::once(last)).collect();
@@ -404,6 +432,46 @@ fn replay(hist: &[Op], last: Op) -> Result<String, (String, Value)> {
                 }
             }
             Op::DropH(h) => drop(real.handles[h].take()),
+            Op::MakeList(p) => {
+                let f = real.pkgs[p].as_mut().unwrap().get_function::<fn() -> roto::List<roto::RotoString>>("mk_list");
+                match f {
+                    Ok(f) => real.list = Some(f.call()),
+                    Err(e) => return Err(("get_function".into(), json!(e.to_string()))),
+                }
+            }
+            Op::UseList | Op::DropList => {
+                // A list made by a script carries pointers to the element clone / drop / eq
+                // functions of its module. When the model says that module has been freed,
+                // the operation is tried in a forked copy first: a crash there is the verdict.
+                let m = model.list.unwrap();
+                let use_it = |real: &mut Real, drop_it: bool| {
+                    let l = real.list.as_ref().unwrap();
+                    let hit = l.contains(&roto::RotoString::from("b"));
+                    let c = l.clone();
+                    let n = c.to_vec().len();
+                    drop(c);
+                    if drop_it {
+                        real.list = None;
+                    }
+                    (hit, n)
+                };
+                if !model.module_alive(m) {
+                    if let Some(sig) = fork_try(|| {
+                        let _ = use_it(&mut real, *op == Op::DropList);
+                    }) {
+                        // the list is unusable from here on: leak it
+                        std::mem::forget(real.list.take());
+                        return Err((
+                            "list-outlives-code".into(),
+                            json!({"step": step, "signal": sig, "what": "a List made by a script was used / dropped after the last handle and package of its module were gone"}),
+                        ));
+                    }
+                }
+                let (hit, n) = use_it(&mut real, *op == Op::DropList);
+                if !hit || n != 2 {
+                    return Err(("wrong-result".into(), json!({"step": step, "contains_b": hit, "len": n})));
+                }
+            }
             Op::IntoFunc(h) => {
                 let Some(Slot::H(x)) = real.handles[h].take() else { unreachable!("into_func of a closure") };
                 real.handles[h] = Some(Slot::F(Box::new(x.into_func())));
@@ -447,6 +515,11 @@ fn replay(hist: &[Op], last: Op) -> Result<String, (String, Value)> {
         obs += &format!("{}|", got.len());
     }
     // terminal: drop everything, in slot order
+    // a list whose module is gone cannot be dropped (that is what UseList / DropList report)
+    match model.list {
+        Some(m) if !model.module_alive(m) => std::mem::forget(real.list.take()),
+        _ => real.list = None,
+    }
     real.handles.clear();
     real.pkgs.clear();
     drop(real.rt.take());
@@ -459,6 +532,25 @@ fn replay(hist: &[Op], last: Op) -> Result<String, (String, Value)> {
         ));
     }
     Ok(obs)
+}
+
+/// Run `f` in a forked copy of this (single-threaded) process; `Some(signal)` if the copy died.
+fn fork_try(f: impl FnOnce()) -> Option<i32> {
+    unsafe {
+        let pid = libc::fork();
+        if pid < 0 {
+            return None;
+        }
+        if pid == 0 {
+            let rl = libc::rlimit { rlim_cur: 0, rlim_max: 0 };
+            libc::setrlimit(libc::RLIMIT_CORE, &rl);
+            f();
+            libc::_exit(0);
+        }
+        let mut status: libc::c_int = 0;
+        libc::waitpid(pid, &mut status, 0);
+        if libc::WIFSIGNALED(status) { Some(libc::WTERMSIG(status)) } else { None }
+    }
 }
 
 struct C11;
@@ -529,12 +621,21 @@ impl Check for C11 {
             None => json!(null),
         }
     }
-    fn matches(&self, _f: &Finding, _v: &Violation) -> bool {
-        false
+    fn matches(&self, f: &Finding, v: &Violation) -> bool {
+        match f.matcher.as_str() {
+            // exactly: UseList / DropList on a script-made list whose module's code has been
+            // freed, dying with a signal in the forked trial
+            "list_outlives_code" => {
+                v.class == "list-outlives-code"
+                    && matches!(v.case["op"].as_str(), Some("UseList") | Some("DropList"))
+                    && v.observed["signal"].is_number()
+            }
+            _ => false,
+        }
     }
     fn meta(&self, cfg: &Cfg) -> Meta {
         Meta {
-            rule: "breadth-first search over all operation sequences (new runtime, compile v1|v2, get, clone, call, into_func, drop handle here / on another thread, drop package, drop runtime) up to the depth bound, at most 1 live runtime, 2 live packages, 3 live handles; states deduplicated by the model key (runtime generation alive?, per module: version, generation, package alive?, handle count, slot assignment, which slots hold an `into_func` closure); every transition is executed on fresh real objects by replaying the representative history; non-trivial = a drop happens while something sharing a module or runtime generation stays alive".into(),
+            rule: "breadth-first search over all operation sequences (new runtime, compile v1|v2, get, clone, call, into_func, make / use / drop a List[String] built by a script, drop handle here / on another thread, drop package, drop runtime) up to the depth bound, at most 1 live runtime, 2 live packages, 3 live handles; states deduplicated by the model key (runtime generation alive?, per module: version, generation, package alive?, handle count, slot assignment, which slots hold an `into_func` closure); every transition is executed on fresh real objects by replaying the representative history; non-trivial = a drop happens while something sharing a module or runtime generation stays alive".into(),
             assumptions: vec![
                 "equal model keys have equal futures: observations depend only on which modules / runtime generations are alive and what they contain".into(),
             ],
